@@ -132,7 +132,7 @@ func (c *c03x) freshAllocs(fn *ssa.Function, T *types.Named) []*ssa.Alloc {
 }
 
 func c03Range(r *fw.Run, c *c03x) {
-	ru := r.Rule("C03.range", "ranges recorded by the field API: TryFieldValue stores Start = Pos() taken before the reader call and Len = Pos() after - Pos() before, on the very value it then links (name/range/reader set before AddChild); fieldDecoder starts a compound at Pos() with Len 0 and uses one reader for D.bitBuf and Value.RootReader; newDecoder root is 0:0; FieldRootBitBuf is Pos():len(br) and IsRoot; FieldRangeFn records (firstBit,nBits); gap values carry the computed gap; Pos() is SeekBits(0, SeekCurrent) on d.bitBuf; every caller of TryFieldValue (the typed TryFieldScalar*Fn family, FieldValue) invokes its reader callback only inside the closure it hands to TryFieldValue", 28)
+	ru := r.Rule("C03.range", "ranges recorded by the field API: TryFieldValue stores Start = Pos() taken before the reader call and Len = Pos() after - Pos() before, on the very value it then links (name/range/reader set before AddChild); fieldDecoder starts a compound at Pos() with Len 0 and uses one reader for D.bitBuf and Value.RootReader; newDecoder root is 0:0; FieldRootBitBuf is Pos():len(br) and IsRoot; FieldRangeFn records (firstBit,nBits); gap values carry the computed gap; Pos() is SeekBits(0, SeekCurrent) on d.bitBuf; every caller of TryFieldValue (the typed TryFieldScalar*Fn family, FieldValue) invokes its reader callback only inside the closure it hands to TryFieldValue, and a value whose reader failed is not linked; the root compound kind is the format's; a gap value holds exactly the bits of its range", 32)
 	p := c.p
 	posFn := c.fn(ru, c03D+"Pos")
 	addChild := c.fn(ru, c03D+"AddChild")
@@ -229,6 +229,8 @@ func c03Range(r *fw.Run, c *c03x) {
 				okLink = c.canon(ac.Common().Args[0]) == d && c.canon(ac.Common().Args[1]) == v
 				okLink = okLink && nst != nil && c03Before(nst, ac) && c.onEveryPathThrough(ac, append(append([]*ssa.Store{}, rst...), rrst))
 			}
+			okNoErr := len(acs) == 1 && c03ErrGuarded(acs[0].Block(), fc)
+			ru.Check(okNoErr, "TryFieldValue:no-link-on-error", c.at(f), "AddChild only when the reader returned no error", "TryFieldValue links the value although its reader failed: a field whose read stopped half-way (range up to wherever the reader got) stays in the tree, and a retry under the same name is refused as duplicate")
 			ru.Check(okLink, "TryFieldValue:link-after-set", c.at(f), "Name set before AddChild(v); range and reader set on every path that links v",
 				"the value is linked (AddChild) before its name/range are final, or another value is linked: ByName is keyed by a stale name / the tree holds a value without the recorded range")
 		}
@@ -329,7 +331,19 @@ func c03Range(r *fw.Run, c *c03x) {
 		ru.Check(rn == 1 && bn == 1 && vn == 1 && c.canon(rv) == br && c.canon(bv) == br && c.canon(vv) == ssa.Value(vals[0]), nameKey+":one-reader", c.at(f),
 			"D.bitBuf and Value.RootReader are the reader parameter; D.Value is the new value",
 			nameKey+": the decoder's reader, the value's RootReader and the reader parameter are not one and the same (positions are recorded against one buffer and resolved against another)")
+		if wantPos {
+			vv, _, vn := c.storedField(f, "Value", base, "V")
+			ru.Check(vn == 1 && len(f.Params) == 4 && c.canon(vv) == ssa.Value(f.Params[3]), nameKey+":value", c.at(f), "Value.V = the compound/scalar handed in", nameKey+": the new value does not hold the compound it was created for (e.g. the parent's): children are appended to a compound shared with another value and parent/child links disagree")
+		}
 		if !wantPos {
+			okKind := false
+			if comps := c.freshAllocs(f, c.compT); len(comps) == 1 {
+				if kv, ok := c.litField(comps[0], "IsArray"); ok && kv != nil && c.pathOf(kv).is(ssa.Value(f.Params[1]), ".RootArray") {
+					vv, _, vn := c.storedField(f, "Value", base, "V")
+					okKind = vn == 1 && c.canon(vv) == ssa.Value(comps[0])
+				}
+			}
+			ru.Check(okKind, nameKey+":kind", c.at(f), "root compound IsArray = format.RootArray", nameKey+": the root value is not a compound whose kind (array/struct) is the one the format declares: a struct root would get no names/ordering, an array root would be sorted by range")
 			iv, _, in := c.storedField(f, "Value", base, "IsRoot")
 			ru.Check(in == 1 && c.pathOf(iv).is(ssa.Value(f.Params[3]), ".IsRoot"), nameKey+":isroot", c.at(f), "IsRoot = opts.IsRoot", nameKey+": root flag is not taken from the options")
 		}
@@ -391,6 +405,26 @@ func c03Range(r *fw.Run, c *c03x) {
 					}
 				}
 			}
+			// the bits the gap value shows are the bits of its range: Actual = bitiox.Range(d.bitBuf, gap.Start, gap.Len)
+			okBits := false
+			if n == 1 {
+				if ld, ok := c.canon(val).(*ssa.UnOp); ok && ld.Op == token.MUL {
+					rcs := c03CallsNamed(f, fw.Mod+"/internal/bitiox.Range")
+					if len(rcs) == 1 && len(rcs[0].Common().Args) == 3 {
+						ra := rcs[0].Common().Args
+						okBits = c.pathOf(ra[0]).is(d, ".bitBuf") && c.linIsPath(c.linOf(ra[1]), ld.X, ".Start") && c.linIsPath(c.linOf(ra[2]), ld.X, ".Len")
+						vv, _, vn := c.storedField(f, "Value", base, "V")
+						sa, isAlloc := c.canon(vv).(*ssa.Alloc)
+						okBits = okBits && vn == 1 && isAlloc
+						if okBits {
+							av, ok := c.litField(sa, "Actual")
+							ex, isEx := c.canon(av).(*ssa.Extract)
+							okBits = ok && av != nil && isEx && ex.Tuple == ssa.Value(rcs[0]) && ex.Index == 0 && c03ErrGuarded(vals[0].Block(), rcs[0])
+						}
+					}
+				}
+			}
+			ru.Check(okBits, "FillGaps:gap-reader", c.at(f), "gap value Actual = bitiox.Range(d.bitBuf, gap.Start, gap.Len) of the same gap", "FillGaps: the bits a gap field holds are not exactly the bits of the gap range it reports (other reader, other start/length, or used after a failed Range)")
 			rv, _, rn := c.storedField(f, "Value", base, "RootReader")
 			acs := c.callsTo(f, addChild)
 			ru.Check(good && rn == 1 && c.pathOf(rv).is(d, ".bitBuf") && len(acs) == 1 && c.canon(acs[0].Common().Args[0]) == d && c.canon(acs[0].Common().Args[1]) == ssa.Value(vals[0]),
@@ -434,10 +468,31 @@ func c03Window(r *fw.Run, c *c03x) {
 			"RangeFn(d.Pos(), nBits, fn)", w.name+" does not decode fn in the window [d.Pos(), d.Pos()+nBits)")
 		e := fw.NewPolyEnv(f)
 		nb := e.Of(nBits)
-		nonneg := e.Proves(rc.Block(), fw.Cmp{P: nb, Rel: fw.GE})
+		// the test may live in a helper called before RangeFn: a call that dominates the RangeFn call,
+		// gets nBits as an argument, and returns only with that parameter >= k
+		ensured := func(k int64) bool {
+			ok := false
+			fw.EachInstr(f, func(ins ssa.Instruction) {
+				call, isCall := ins.(*ssa.Call)
+				if !isCall || ok || !c03Before(call, rc) {
+					return
+				}
+				h := call.Common().StaticCallee()
+				if h == nil || h.Blocks == nil || pkgRel(h) != "pkg/decode" {
+					return
+				}
+				for j, a := range call.Common().Args {
+					if c.canon(a) == nBits && j < len(h.Params) && c03Ensures(h, j, k) {
+						ok = true
+					}
+				}
+			})
+			return ok
+		}
+		nonneg := e.Proves(rc.Block(), fw.Cmp{P: nb, Rel: fw.GE}) || ensured(0)
 		ru.Check(nonneg, w.name+":negative-fatal", p.Rel(rc.Pos()), "nBits >= 0 holds at the RangeFn call (failing arm is no-return)",
 			w.name+": a negative nBits reaches RangeFn (the test is gone or its arm can continue): the sub-reader ends before the current position and ranges fall outside the frame")
-		pos := e.Proves(rc.Block(), fw.Cmp{P: nb.Sub(fw.PConst(1)), Rel: fw.GE})
+		pos := e.Proves(rc.Block(), fw.Cmp{P: nb.Sub(fw.PConst(1)), Rel: fw.GE}) || ensured(1)
 		ru.Check(!pos, w.name+":zero-legal", p.Rel(rc.Pos()), "nBits == 0 still reaches RangeFn", w.name+": an empty frame (nBits == 0) is now rejected")
 		scs := c.callsTo(f, seekRel)
 		okAdv := len(scs) == 1
@@ -553,10 +608,27 @@ func c03Window(r *fw.Run, c *c03x) {
 	ru.Check(okRet, "RangeFn:decoded-length", c.at(f), "returns nd.Pos() after fn - d.Pos()", "RangeFn does not return (sub-decoder position after fn) - (d's position): LimitedFn would advance by a wrong amount")
 }
 
+// ensures: function h returns (normally) only when its j-th parameter is >= k.
+func c03Ensures(h *ssa.Function, j int, k int64) bool {
+	e := fw.NewPolyEnv(h)
+	q := fw.Cmp{P: e.Of(h.Params[j]).Sub(fw.PConst(k)), Rel: fw.GE}
+	n := 0
+	for _, b := range h.Blocks {
+		if _, isRet := b.Instrs[len(b.Instrs)-1].(*ssa.Return); !isRet {
+			continue
+		}
+		n++
+		if !e.Proves(b, q) {
+			return false
+		}
+	}
+	return n > 0
+}
+
 // errGuarded: block b is only reached when the error result (last tuple element) of call is nil.
 func c03ErrGuarded(b *ssa.BasicBlock, call *ssa.Call) bool {
 	for _, g := range fw.Guards(b) {
-		g = g.Normalize()
+		g = c03Norm(g)
 		bo, ok := g.Cond.(*ssa.BinOp)
 		if !ok || (bo.Op != token.EQL && bo.Op != token.NEQ) {
 			continue
@@ -571,6 +643,9 @@ func c03ErrGuarded(b *ssa.BasicBlock, call *ssa.Call) bool {
 		}
 		ex, ok := other.(*ssa.Extract)
 		if !ok || ex.Tuple != ssa.Value(call) {
+			continue
+		}
+		if tup, isTup := call.Type().(*types.Tuple); !isTup || ex.Index != tup.Len()-1 {
 			continue
 		}
 		if (bo.Op == token.NEQ && !g.True) || (bo.Op == token.EQL && g.True) {
